@@ -4,7 +4,7 @@ check(s) of the property it breaks (meta.json: "property", optional "also"), und
 whether it was caught.  Refuses to run when /repo has local modifications."""
 import json, os, subprocess, sys, time
 VERIF = os.path.dirname(os.path.dirname(os.path.abspath(__file__)))
-REPO = "/repo"
+REPO = os.environ.get("SEED_REPO") or os.environ.get("VP_RUN_REPO") or "/repo"   # a scratch checkout keeps /repo untouched
 
 def sh(cmd, **kw):
     return subprocess.run(cmd, shell=True, text=True, stdout=subprocess.PIPE, stderr=subprocess.STDOUT, **kw)
@@ -25,7 +25,7 @@ def main():
         try:
             for p in props:
                 t0 = time.time()
-                r = sh("./check %s --tier %s" % (p, tier), cwd=VERIF)
+                r = sh("./check %s --tier %s" % (p, tier), cwd=VERIF, env=dict(os.environ, MAKO_REPO=REPO))
                 viol = [l for l in r.stdout.splitlines() if l.startswith("VIOLATION")]
                 print("%s -> check %s rc=%d %.0fs %s" % (sid, p, r.returncode, time.time() - t0, viol[:1]))
                 res.append((sid, p, r.returncode, viol[:1]))
